@@ -7,6 +7,8 @@ package verif_c14_test
 
 import (
 	"fmt"
+	"os"
+	"strconv"
 
 	"pgregory.net/rapid"
 )
@@ -34,6 +36,17 @@ type Script struct {
 	Internal bool   `json:"internal"` // gRPC only: StreamServerCore.Internal
 	Ops      []Op   `json:"ops"`
 }
+
+// maxSleepUs bounds generated and replayed sleeps; VERIF_C14_MAXSLEEP_US raises it for
+// directed experiments through --replay.
+var maxSleepUs = func() int {
+	if v, err := strconv.Atoi(os.Getenv("VERIF_C14_MAXSLEEP_US")); err == nil && v > 0 {
+		return v
+	}
+	return 5000
+}()
+
+var allowCloseOnFull = os.Getenv("VERIF_C14_ALLOW_CLOSE_ON_FULL") == "1"
 
 const (
 	// byteBudget is the number of payload bytes per direction that the model assumes every
@@ -159,8 +172,12 @@ func (m *model) step(idx int, op Op) (e expect, consumed int, ok bool) {
 			e.kind = "free"
 			within := len(m.reqQ)+m.postRetSends < m.buf
 			if m.hReturned {
-				if !within {
-					return e, -1, false // the mock's CloseSend could block forever
+				if !within && !allowCloseOnFull {
+					// mock.ClientStream.CloseSend pushes its EOF marker with an unconditional
+					// channel send: with a full request buffer and a handler that has returned
+					// it never comes back. Excluded from generation (it could only ever time
+					// out); VERIF_C14_ALLOW_CLOSE_ON_FULL=1 admits it for directed replays.
+					return e, -1, false
 				}
 				m.cClosed = true
 				break
@@ -299,7 +316,7 @@ func buildPlan(sc Script) (*plan, string) {
 	m := newModel(sc.Buf)
 	p.exp = make([]expect, len(p.ops))
 	for i, op := range p.ops {
-		if op.SleepUs < 0 || op.SleepUs > 5000 {
+		if op.SleepUs < 0 || op.SleepUs > maxSleepUs {
 			return nil, "sleep"
 		}
 		e, consumed, ok := m.step(i, op)
